@@ -133,7 +133,8 @@ pub fn check(c: &Case) -> Option<(String, String)> {
             }
             model.insert(window[0].clone(), content.clone());
         }
-        // observe
+        // observe (background-rotation build: wait until the library's rotation thread is done)
+        super::rolling::wait_quiescent(&sb.path("live"));
         let snap = snapshot(&sb.dir);
         if snap.contains_key(live) {
             return Some(("rolled-file-still-present".into(), format!("after roll #{} the rolled file still exists at its original path", k)));
@@ -205,12 +206,9 @@ pub fn cases(tier: Tier) -> Vec<Case> {
     let bases: &[u32] = &[0, 1, 3, 4_000_000_000];
     for p in patterns {
         for &base in bases {
-            for count in 0..=tier.pick(4u32, 5u32) {
+            for count in 0..=tier.pick(5u32, 6u32) {
                 for init in subsets(count) {
                     for by in [false, true] {
-                        if tier == Tier::Quick && by && base == 4_000_000_000 {
-                            continue;
-                        }
                         v.push(Case { pattern: p.to_string(), base, count, initial: init.clone(), bystanders: by, rolls: count + 3, delete_roller: false });
                     }
                 }
@@ -249,6 +247,24 @@ pub fn run(ctx: &Ctx) -> Report {
     for k in [2usize, 5, 8] {
         rep.sample(case_json(&cs[(ctx.seed as usize * 37 + cs.len() * k / 10) % cs.len()]));
     }
+    if let Ok(bin) = std::env::var("VERIF_BG_BIN") {
+        let o = crate::engine::proc::run_child(std::path::Path::new(&bin), "c07bg", &[], &[], ctx.cap);
+        let mut ok = false;
+        for v in o.json_lines() {
+            if v["kind"] == "stat" {
+                ok = true;
+                rep.add("evaluations", v["evaluations"].as_u64().unwrap_or(0));
+                rep.set("background_rotation_build", v.clone());
+            }
+            if v["kind"] == "violation" {
+                rep.violation(format!("background-rotation:{}", v["sig"].as_str().unwrap_or("")), v["detail"].as_str().unwrap_or(""), v["case"].clone());
+            }
+        }
+        if !ok {
+            eprintln!("MACHINERY FAILURE: background-rotation child failed: {}", String::from_utf8_lossy(&o.stderr));
+            std::process::exit(2);
+        }
+    }
     rep.assume("the slot directly above a gap may keep its stale archive or lose it (the property only promises tolerance)");
     rep.assume("copy+delete fallback of move_file (rename failing with EXDEV) is covered by the fault engine, see exdev_* keys when present");
     rep
@@ -260,4 +276,18 @@ pub fn replay(case: &Value) -> Result<(), String> {
         None => Ok(()),
         Some((s, d)) => Err(format!("{}: {}", s, d)),
     }
+}
+
+/// `child c07bg` — run in the binary built with the `background_rotation` feature
+pub fn child_bg() -> i32 {
+    let cs = cases(Tier::Quick);
+    let bad: Vec<(usize, (String, String))> = cs.par_iter().enumerate().filter_map(|(i, c)| check(c).map(|m| (i, m))).collect();
+    let mut seen = std::collections::BTreeSet::new();
+    for (i, (s, d)) in bad {
+        if seen.insert(s.clone()) {
+            println!("{}", json!({"kind": "violation", "sig": s, "detail": format!("{:?}: {}", cs[i], d), "case": case_json(&cs[i])}));
+        }
+    }
+    println!("{}", json!({"kind": "stat", "feature_background_rotation": cfg!(feature = "background_rotation"), "cases": cs.len(), "evaluations": cs.iter().map(|c| c.rolls as u64).sum::<u64>()}));
+    0
 }
